@@ -387,6 +387,39 @@ def pCtxc (gs : List (List CtxStep)) (obs : String) : String := Id.run do
       | _ => return "bad-op"
     return "ok"
 
+/-! ### volume: many keys expiring together with a few probes -/
+
+/-- the model run behind a volume case: probes, other keys, the sentinel last; a clean-up whose tick is past the sentinel's
+    expiry (that such a clean-up ran is what the sentinel's re-acceptance proves); the sentinel again, then every probe again -/
+def mVolume (nOther nProbes : Nat) : String :=
+  let w := 1000
+  let probes := (List.range nProbes).map fun i => s!"p{i}"
+  -- by `keys_independent` the other keys cannot matter; a few of them are kept in the run
+  let others := (List.range (min nOther 50)).map fun i => s!"o{i}"
+  let first : List (Op String) := (probes ++ others ++ ["z"]).zipIdx.map fun (k, i) => Op.arrive k i
+  let t1 := first.length + w + 1
+  let second : List (Op String) := Op.clean t1 t1 :: (("z" :: probes).zipIdx.map fun (k, i) => Op.arrive k (t1 + i))
+  let res := (run w [] (first ++ second)).2
+  let firstAcc := (res.take first.length).filter (· == Res.verdict false) |>.length
+  let z := match res[first.length + 1]? with | some (.verdict false) => "reaccepted" | _ => "stuck"
+  let pr := (res.drop (first.length + 2)).map resLetter
+  -- the harness stores 8 sentinels (any of them is the witness); the model run carries one
+  s!"first={firstAcc + (nOther - min nOther 50) + 7}/{nOther + nProbes + 8} z={z} probes={String.ofList pr}"
+
+/-- statement: a key is accepted again after it expired – the sentinel's re-acceptance shows that the clean-up past the
+    probes' expiry has run, so every probe must be accepted again; and everything is accepted when it first arrives -/
+def pVolume (nOther nProbes : Nat) (obs : List String) : String :=
+  match obs with
+  | [first, z, probes] =>
+    if first != s!"first={nOther + nProbes + 8}/{nOther + nProbes + 8}" then "violated:first_arrival_not_accepted"
+    else if z != "z=reaccepted" then "violated:accepted_again_after_expiry"
+    else match probes.splitOn "=" with
+      | ["probes", ls] =>
+        if ls.length != nProbes then "violated:length"
+        else if ls.toList.all (· == 'a') then "ok" else "violated:accepted_again_after_expiry"
+      | _ => "bad-op"
+  | _ => "bad-op"
+
 /-! ### hash / metakey / timeout / router / expire -/
 
 def mHash (algo : String) (l : Int) (p1 p2 : List UInt8) : String :=
@@ -618,6 +651,14 @@ def handle (line : String) : String :=
     match parseHasher h, parseCtxAssign a with
     | some _, some gs => if via = "mw" || via = "dec" then pCtxc gs obs else "bad-op"
     | _, _ => "bad-op"
+  | ["M", "volume", via, ms, n, np] =>
+    match ms.toNat?, n.toNat?, np.toNat? with
+    | some _, some n, some np => if ["repo", "mw", "dec"].contains via then mVolume n np else "bad-op"
+    | _, _, _ => "bad-op"
+  | "P" :: "volume" :: via :: ms :: n :: np :: "##" :: obs =>
+    match ms.toNat?, n.toNat?, np.toNat? with
+    | some _, some n, some np => if ["repo", "mw", "dec"].contains via then pVolume n np obs else "bad-op"
+    | _, _, _ => "bad-op"
   | ["M", "expire", _, ms] => if ms.toNat?.isSome then "reaccepted" else "bad-op"
   | ["P", "expire", _, _, "##", obs] =>
     if obs = "reaccepted" then "ok"
